@@ -75,7 +75,8 @@ def mutants(stmts, rng, quick):
                         out.append(("wrong_end_name:" + s.kind, "line %d %r -> %r" % (i + 1, s.text, w.text),
                                     stmts[:i] + [w] + stmts[i + 1:]))
                 elif s.kind in ("end_subroutine", "end_function", "end_module", "end_program", "end_type",
-                                "end_submodule", "end_block_data") and len(words) >= 3:
+                                "end_submodule", "end_block_data", "end_interface") and len(words) >= 3 \
+                        and "(" not in words[-1]:
                     w = s.copy()
                     w.text = " ".join(words[:-1] + ["wrongN"])
                     out.append(("wrong_end_name:" + s.kind, "line %d %r -> %r" % (i + 1, s.text, w.text),
@@ -86,6 +87,17 @@ def mutants(stmts, rng, quick):
                     w.text = s.text + " extraN"
                     out.append(("surplus_end_name:" + s.kind, "line %d %r -> %r" % (i + 1, s.text, w.text),
                                 stmts[:i] + [w] + stmts[i + 1:]))
+    # ---- a surplus END of a program unit / subprogram inside an executable construct
+    for i, s in enumerate(stmts):
+        if s.role == "open" and s.kind in ("if_construct", "do_block", "do_while", "select_case", "select_type",
+                                           "select", "where_construct", "forall_construct", "associate",
+                                           "block_construct", "critical", "do_concurrent"):
+            for endtxt in ("end subroutine", "end function", "end", "end program"):
+                d = s.copy()
+                d.role, d.kind, d.name, d.label, d.text = "plain", "surplus_unit_end", None, None, endtxt
+                out.append(("surplus_unit_end_inside_construct:" + endtxt.replace(" ", "_"),
+                            "insert %r after line %d %r" % (endtxt, i + 1, s.line("")),
+                            stmts[:i + 1] + [d] + stmts[i + 1:]))
     # ---- an END statement of the wrong kind (the construct is not terminated by its own END)
     END_SWAP = {"end if": "end do", "end do": "end if", "end select": "end if", "end where": "end do",
                 "end forall": "end where", "end associate": "end block", "end block": "end associate",
